@@ -183,6 +183,37 @@ pub fn run_children(mappings: &[Vec<u8>], n: usize) -> Result<Vec<Vec<String>>, 
     Ok(out)
 }
 
+/// One helper process (`c14skew`, next to this executable) over all mappings; one digest line per mapping.
+pub fn run_skew_child(mappings: &[Vec<u8>]) -> Result<Vec<String>, String> {
+    let exe = std::env::current_exe().map_err(|e| e.to_string())?;
+    let helper = exe.with_file_name("c14skew");
+    if !helper.exists() {
+        return Err(format!("{} not built", helper.display()));
+    }
+    let mut framed = Vec::new();
+    for m in mappings {
+        framed.extend_from_slice(&(m.len() as u32).to_le_bytes());
+        framed.extend_from_slice(m);
+    }
+    let mut child = Command::new(&helper).stdin(Stdio::piped()).stdout(Stdio::piped()).spawn().map_err(|e| format!("cannot spawn {}: {e}", helper.display()))?;
+    let mut stdin = child.stdin.take().unwrap();
+    let feeder = std::thread::spawn(move || {
+        let _ = stdin.write_all(&framed);
+    });
+    let mut s = String::new();
+    child.stdout.take().unwrap().read_to_string(&mut s).map_err(|e| e.to_string())?;
+    let _ = feeder.join();
+    let status = child.wait().map_err(|e| e.to_string())?;
+    if !status.success() {
+        return Err(format!("helper exited with {status}"));
+    }
+    let lines: Vec<String> = s.lines().map(|l| l.to_string()).collect();
+    if lines.len() != mappings.len() {
+        return Err(format!("helper answered {} lines for {} mappings", lines.len(), mappings.len()));
+    }
+    Ok(lines)
+}
+
 pub fn check_in_process(bytes: &[u8], st: &mut Stats) -> Result<String, Fail> {
     st.evaluations += 1;
     let a = write_once(bytes).map_err(|e| Fail::new("write-error", e))?;
@@ -230,6 +261,33 @@ pub fn check_in_process(bytes: &[u8], st: &mut Stats) -> Result<String, Fail> {
         st.evaluations += 1;
         if again != a {
             return Err(Fail::new("history-dependent", format!("after a write into a sink that fails after {limit} bytes, the next write of the same mapping differs ({} vs {} bytes)", again.len(), a.len())));
+        }
+    }
+    // ... also when the earlier write did not return at all: a sink that panics (caught, the thread lives on — a
+    // thread pool, a task runtime); whatever the writer kept for the duration of the call must not survive it
+    struct Panicking(usize, usize);
+    impl std::io::Write for Panicking {
+        fn write(&mut self, buf: &[u8]) -> std::io::Result<usize> {
+            if self.1 + buf.len() > self.0 {
+                panic!("scripted sink panic");
+            }
+            self.1 += buf.len();
+            Ok(buf.len())
+        }
+        fn flush(&mut self) -> std::io::Result<()> {
+            Ok(())
+        }
+    }
+    for limit in [0usize, 24, 40, a.len() / 2, a.len().saturating_sub(1)] {
+        let _ = guarded(|| {
+            let m = proguard::ProguardMapping::new(bytes);
+            let mut sink = Panicking(limit, 0);
+            let _ = proguard::ProguardCache::write(&m, &mut sink);
+        });
+        let again = write_once(bytes).map_err(|e| Fail::new("write-error", e))?;
+        st.evaluations += 1;
+        if again != a {
+            return Err(Fail::new("history-dependent", format!("after a write into a sink that panicked after {limit} bytes (panic caught), the next write of the same mapping on this thread differs ({} vs {} bytes)", again.len(), a.len())));
         }
     }
     // ... nor of which object the mapping was derived from: a section taken after the parent was written
@@ -322,7 +380,7 @@ fn classify(case: &MapCase, st: &mut Stats) -> bool {
 
 pub fn run(ctx: &Ctx) -> Report {
     let mut rep = Report::new(ID, "exploration", ctx);
-    rep.rule = format!("Cases: grammar-generated mappings (up to 12 class blocks), their degenerate variants (zero-length names in one slot per class block: obfuscated method names, sourceFile values, original names, obfuscated class name, arguments, foreign class), hostile token mutants (any bytes) and corpus files. Each mapping is written twice in the parent (two fresh writer invocations => differently seeded HashSet/HashMap instances), from 8 concurrently running threads, at 8 different buffer alignments, again after failed / truncated writes on the same thread, and by {CHILDREN} separately started child processes (fresh hash seeds, different allocation addresses; each child under a different environment — empty, TZ/LANG/LC_ALL, cwd=/, RUST_* variables, 200 padding variables, HOME/USER/TMPDIR/DEBUG/CI, glibc malloc perturbation — and with the mappings rotated so that the write history before a given mapping differs between children) that return digests (two 64-bit hashes + length). Oracle: all digests identical; output length == length implied by its own header. evaluations = write invocations compared. Non-trivial = distinct mappings with >=2 classes, >=3 distinct strings and >=1 by-params group of >=2 entries (so hash-ordered emission would have something to permute).");
+    rep.rule = format!("Cases: grammar-generated mappings (up to 12 class blocks), their degenerate variants (zero-length names in one slot per class block: obfuscated method names, sourceFile values, original names, obfuscated class name, arguments, foreign class), hostile token mutants (any bytes) and corpus files. Each mapping is written twice in the parent (two fresh writer invocations => differently seeded HashSet/HashMap instances), from 8 concurrently running threads, at 8 different buffer alignments, again after failed / truncated writes on the same thread, and by {CHILDREN} separately started child processes (fresh hash seeds, different allocation addresses; each child under a different environment — empty, TZ/LANG/LC_ALL, cwd=/, RUST_* variables, 200 padding variables, HOME/USER/TMPDIR/DEBUG/CI, glibc malloc perturbation — and with the mappings rotated so that the write history before a given mapping differs between children) that return digests (two 64-bit hashes + length), and by one helper process whose global allocator places every byte buffer at an address = k (mod 8) for k = 0..8. Oracle: all digests identical; output length == length implied by its own header. evaluations = write invocations compared. Non-trivial = distinct mappings with >=2 classes, >=3 distinct strings and >=1 by-params group of >=2 entries (so hash-ordered emission would have something to permute).");
     rep.assumptions = vec!["one platform (x86_64 Linux); endianness / pointer-width dependent ordering is out of reach".into()];
     let collected: Mutex<Vec<(Vec<u8>, String)>> = Mutex::new(Vec::new());
     rep.run_stage("tall", || tall_case(&cfg()), ctx.cases(40, 1_500), |case: &MapCase, st: &mut Stats| {
@@ -416,11 +474,33 @@ pub fn run(ctx: &Ctx) -> Report {
             rep.stats.class_n("mappings re-written by 8 child processes", all.len() as u64);
         }
     }
+    // the same mappings in a helper process whose allocator places byte buffers at addresses = k (mod 8), k = 0..8
+    match run_skew_child(&mappings) {
+        Err(e) => rep.stats.skipped.push(format!("skewed-allocator stage could not run: {e}")),
+        Ok(lines) => {
+            for (i, l) in lines.iter().enumerate() {
+                rep.stats.evaluations += 8;
+                if *l != all[i].1 {
+                    rep.fail(
+                        "xproc",
+                        json!({"mapping_hex": hex(&all[i].0)}),
+                        Fail::new("allocation-address-dependent", format!("under an allocator that places byte buffers at odd addresses the cache of a {}-byte mapping is {l}, the parent wrote {}", all[i].0.len(), all[i].1)),
+                    );
+                    break;
+                }
+            }
+            rep.stats.class_n("mappings re-written under 8 allocation skews (byte buffers at addresses = k mod 8)", lines.len() as u64);
+        }
+    }
     super::scale::run(&mut rep, ctx, "C14");
+    rep.run_enum("default-objects", &[0u8], super::common::check_default_objects);
     rep
 }
 
 pub fn replay(stage: &str, case: &Value) -> Check {
+    if stage == "default-objects" {
+        return super::common::check_default_objects(&0, &mut Stats::new());
+    }
     if stage == "scale" {
         return super::scale::replay(case);
     }
